@@ -625,7 +625,32 @@ func (c *genCtx) trap(depth int, nn bool) *Expr {
 	if !c.o.NoLookNeg && c.draw(0, 11, "swallowtrap") == 0 {
 		kind = 15
 	}
+	if c.draw(0, 13, "nonemptyfail") == 0 {
+		kind = 16
+	}
 	switch kind {
+	case 16:
+		// a ( ... )! group whose body fails after an optional part of it has matched and captured, inside an optional,
+		// followed by a tail that takes the same tokens: ( ( @a? b )! )? @a*   /   ( ( @a? ( b @a b )? )! c )? @a*
+		a, b := c.leaf(), c.leaf()
+		b = c.otherLiteral(a)
+		body := Seq(Group("?", Cap(a)), b)
+		if c.draw(0, 2, "nonemptydeep") == 0 {
+			body = Seq(Group("?", Cap(a)), Group("?", Seq(clone(b), Cap(clone(a)), clone(b))))
+		}
+		ne := Group("!", body)
+		ne.Style = c.draw(0, 5, "gstyle")
+		var inner *Expr = ne
+		if body.Kids[1].Kind == KGroup {
+			inner = Seq(ne, c.otherLiteral(b))
+		}
+		opt := Group("?", inner)
+		opt.Style = c.draw(0, 5, "gstyle")
+		tail := Group("*", Cap(clone(a)))
+		if nn {
+			tail = Group("+", Cap(clone(a)))
+		}
+		return Seq(opt, tail)
 	case 15:
 		// a lookahead group or a negation whose body holds a group that fails several tokens in (the failure is
 		// swallowed and the parse goes on), then choice points nested three deep, the innermost of which captures a
